@@ -474,7 +474,7 @@ fn source_plane(rep: &Report, per_form: usize, core: bool, seed: u64) {
                     Ins::Sh(ALL_SH[k - 5], d, cnt)
                 }
             };
-            let mut sp = if it % 2 == 0 { Spell::plain() } else { Spell::random(rng.fork(it as u64)) };
+            let mut sp = if it % 2 == 0 { Spell::plain() } else { Spell::random_syn(rng.fork(it as u64)) };
             let text = format!("{}start:\n{}\n", data_src, ins.src(&mut sp));
             let a = match asm::assemble(&text) {
                 Ok(a) => a,
